@@ -42,6 +42,8 @@ var c01Inline = []string{
 	"[]", "{}", "[a]", "[[a]]", "[[[[a]]]]", "{a: b}", "{a: {b: c}}", "[{a: b}]", "{a: [b]}", "[~]", "[1, true, ~, 1.5]", "{? [a] : b}", "{1: a}", "{true: a}", "{~: a}", "{a: ~}", "{A: 1, a: 2}", "[a, [b], {c: d}]",
 	"&newanc v", "*sanc", "*manc", "*lanc", "[*sanc, *lanc]", "{<<: *manc}", "{<<: [*manc, *manc]}", "{<<: *sanc}", "{k: *manc}", "&self [*self]", "*undefined",
 	"'${{ fromJSON(' ) }}'", "'${{ github.event.*.body }}'", "'${{ matrix.*.* }}'",
+	// schedule spellings beyond the five fields (handled by a third-party parser)
+	"TZ=UTC", "'CRON_TZ=Asia/Tokyo'", "TZ=", "'TZ=UTC 0 0 * * *'", "'@every 1s'", "'@daily'", "'* * * * * *'", "'0 0 31 2 *'", "'*/0 * * * *'", "'1-0 * * * *'", "'? ? ? ? ?'",
 	// text of several bytes per character before a broken / undefined expression: positions inside
 	// a scalar are byte offsets, the snippet printer meets them on a line with fewer characters
 	"'日本語のなまえ ${{ foo( }}'", "'ééééééééé ${{ nosuch }}'", "日本語のなまえの長い名前 ${{ nosuch.x }}", "'😀😀😀😀 ${{ a + }}'", "'${{ nosuch }} 日本語 ${{ b + }}'",
@@ -412,6 +414,62 @@ func TestVerifC01(t *testing.T) {
 			}
 		}
 		c01Project(t, dir)
+	}
+
+	// (c2) other line breaks: the YAML reader also breaks lines at CR, NEL, LS and PS, so line numbers
+	// of nodes can exceed the number of LF-separated lines. Every workflow seed, plain and with an
+	// anchored / tagged scalar at every value position, under 7 renderings of its line breaks
+	{
+		wf := chans[0]
+		renderings := []struct {
+			name string
+			f    func(string) string
+		}{
+			{"CR", func(s string) string { return strings.ReplaceAll(s, "\n", "\r") }},
+			{"CRLF", func(s string) string { return strings.ReplaceAll(s, "\n", "\r\n") }},
+			{"NEL", func(s string) string { return strings.ReplaceAll(s, "\n", "\u0085") }},
+			{"LS-in-leading-comment", func(s string) string { return "# a\u2028# b\u2028# c\u2029# d\n" + strings.TrimSuffix(s, "\n") }},
+			{"CR-in-leading-comment", func(s string) string { return "# a\r# b\r# c\n" + strings.TrimSuffix(s, "\n") }},
+			{"mixed", func(s string) string {
+				var b strings.Builder
+				for i, l := range strings.Split(s, "\n") {
+					b.WriteString(l + []string{"\n", "\r", "\r\n", "\u0085"}[i%4])
+				}
+				return b.String()
+			}},
+			{"no-final-break", func(s string) string {
+				return "# x\u2028# y\n" + strings.TrimRight(s, "\n") + "\nx-last: &lastanc !!str v"
+			}},
+		}
+		for _, sname := range vSortedKeys(wf.seeds) {
+			src := c01Anchors + wf.seeds[sname]
+			cat, err := vBuildCatalogue(sname, src)
+			if err != nil {
+				continue
+			}
+			variants := []string{src}
+			for _, p := range cat.Scalars {
+				if p.Line > 1 {
+					variants = append(variants, cat.Replace(p, "&lb"+fmt.Sprint(p.Line)+" !!str v"), cat.Replace(p, "!!str \"${{ a + }}\""))
+				}
+			}
+			for vi, v := range variants {
+				for _, rd := range renderings {
+					idx++
+					if !r.Mine(idx) {
+						continue
+					}
+					if idx%1024 == 0 && r.Expired() {
+						return
+					}
+					content := rd.f(v)
+					what := fmt.Sprintf("seed %s variant %d line breaks %s", sname, vi, rd.name)
+					r.Begin(func() string { return "channel=workflow " + what })
+					res := wf.run(t, dir, content)
+					c01Oracle(r, wf, what, res, map[string]any{"channel": wf.name, "content": content})
+				}
+			}
+		}
 	}
 
 	// (d) structured families whose shapes the fragment alphabet cannot build: every needs graph on
